@@ -1,6 +1,7 @@
 import WuffsVerif.Common.Line
 import WuffsVerif.Model.Rac.Reader
 import WuffsVerif.Model.Rac.Conc
+import WuffsVerif.Model.Rac.ConcData
 /-! Line driver for C14 (lib/rac Reader).  Stateful.  Ops:
   case <id> size=<n> <chunk>*                 -> ok chunks=<k> size=<n> valid=<true|false>   (defines the file)
   open c=<concurrency>                        -> ok      (a fresh Reader on the current file)
@@ -11,6 +12,16 @@ import WuffsVerif.Model.Rac.Conc
   seekrange <lo> <hi>      -> err=<word>
   close | closenw          -> err=<word>            (closenw = CloseWithoutWaiting, same model step)
   trace n=<N> <event>*     -> accepted | rejected at <k> <event>      (Model/Rac/Conc.lean, protocol events)
+  dsched n=<N> seed=<k> <call>*  -> <result> | <result> | …   (Model/Rac/ConcData.lean: the calls are made on the
+      current file by the concurrent model with N workers under a pseudo-random schedule; one result per call, in the
+      format of the lines above; `!stuck` / `!fuel` / `!fault` is appended if the model cannot go on)
+      call = read:<n> | seek:<off>:<whence> | seekrange:<lo>:<hi> | close
+  cseek <pos> <lim> <size> <resolved> <off> <whence> <limit>  -> pos=<p> lim=<l> resolved=<0|1> ret=<r> err=<word>
+      (ConcD.seekD = concReader.seek on a concReader with these cursor fields)
+  mgr <lo> <hi>            -> <lo>-<hi> <lo>-<hi> …  | -     (the requests the Manager makes for the region of interest
+      [lo, hi) of the current file: ConcD.stepD mgrMake iterated = runRManager)
+  wrk <lo>-<hi>*           -> <lo>-<hi>:<bytes> …    | -     (the pieces one Worker sends back for these requests:
+      ConcD.stepD wRecv / wMake iterated = runRWorker)
 -/
 open WuffsVerif WuffsVerif.Line WuffsVerif.Rac
 
@@ -93,6 +104,140 @@ def parseOp : List String → Option Op
   | ["closenw"] => some Op.close      -- CloseWithoutWaiting: same results as Close
   | _ => none
 
+/-! ### pseudo-random schedules of the concurrent model with data -/
+
+open WuffsVerif.Rac.ConcD WuffsVerif.Rac.Conc in
+def dCandidates (s : DSt) : List DLabel :=
+  [.stopMgr, .recycle, .ackMgr, .ackDone, .roi, .mgrMake, .mgrSend, .recvRes, .recycleCurr, .copy, .readDone] ++
+  (List.range s.ws.length).flatMap (fun i => [.stopW i, .ackW i, .wRecv i, .wMake i, .wSend i, .wRecycle i]) ++
+  (List.range s.completed.length).map .take
+
+def lcg (x : Nat) : Nat := (x * 6364136223846793005 + 1442695040888963407) % 18446744073709551616
+
+/-- one protocol step chosen by `rng` among the enabled ones (none: nothing is enabled) -/
+def dPick (F : File) (s : ConcD.DSt) (rng : Nat) : Option ConcD.DSt :=
+  let cands := dCandidates s
+  let k := (rng / 65536) % cands.length
+  (cands.drop k ++ cands.take k).findSome? (fun l => ConcD.stepD F s l)
+
+/-- run protocol steps until `main` is between calls again -/
+def dFinish (F : File) : Nat → ConcD.DSt → Nat → ConcD.DSt × Nat × String
+  | 0, s, rng => (s, rng, " !fuel")
+  | fuel + 1, s, rng =>
+    if s.main = .idle ∨ s.main = .closed then (s, rng, "")
+    else if s.fault then (s, rng, " !fault")
+    else
+      let rng := lcg rng
+      match dPick F s rng with
+      | none => (s, rng, " !stuck")
+      | some s' => dFinish F fuel s' rng
+
+/-- a few protocol steps while `main` is between calls (the pipeline keeps running) -/
+def dBackground (F : File) : Nat → ConcD.DSt → Nat → ConcD.DSt × Nat
+  | 0, s, rng => (s, rng)
+  | k + 1, s, rng =>
+    let rng := lcg rng
+    match dPick F s rng with
+    | none => (s, rng)
+    | some s' => dBackground F k s' rng
+
+def parseCall (t : String) : Option Op :=
+  match t.splitOn ":" with
+  | ["read", n] => n.toNat?.map Op.read
+  | ["seek", off, wh] => do pure (Op.seek (← off.toInt?) (← wh.toInt?))
+  | ["seekrange", lo, hi] => do pure (Op.seekRange (← lo.toInt?) (← hi.toInt?))
+  | ["close"] => some Op.close
+  | _ => none
+
+def dSched (F : File) (n : Nat) (seed : Nat) (calls : List Op) : String :=
+  let rec go : List Op → ConcD.DSt → Nat → ConcD.DSt × String
+    | [], s, _ => (s, "")
+    | op :: ops, s, rng =>
+      match ConcD.stepD F s (.call op) with
+      | none => (s, if s.fault then " !fault" else " !stuck")
+      | some s1 =>
+        let (s2, rng, e) := dFinish F 4000000 s1 rng
+        if e != "" then (s2, e)
+        else
+          let rng := lcg rng
+          let (s3, rng) := dBackground F ((rng / 65536) % 12) s2 rng
+          go ops s3 rng
+  let (s, e) := go calls (ConcD.DSt.init F n) (lcg (seed + 1))
+  String.intercalate " | " (s.results.map showRes) ++ e
+
+/-! ### per-function correspondence for the concurrent model -/
+
+def dCseek (pos lim size : Nat) (resolved : Bool) (off wh limit : Int) : String :=
+  let F : File := { chunks := [], size := size }
+  let s : ConcD.DSt := { ConcD.DSt.init F 0 with pos := pos, lim := lim, seekResolved := resolved }
+  let (s', p, e) := ConcD.seekD F s off wh limit
+  s!"pos={s'.pos} lim={s'.lim} resolved={if s'.seekResolved then 1 else 0} ret={p} err={errWord e}"
+
+/-- the Manager's requests for one region of interest -/
+def dMgr (F : File) (lo hi : Nat) : String :=
+  let s0 : ConcD.DSt := ConcD.DSt.init F 1
+  let m0 : Conc.M := { s0.mgr.m with inputOn := false, roi := some 0, work := none }
+  let mg0 : ConcD.DM := { s0.mgr with m := m0, rlo := lo, rhi := hi, cur := lo }
+  let s0 : ConcD.DSt := { s0 with mgr := mg0 }
+  let rec go : Nat → ConcD.DSt → List String → List String
+    | 0, _, acc => acc ++ ["!fuel"]
+    | fuel + 1, s, acc =>
+      if s.fault then acc ++ ["!fault"]
+      else if s.mgr.m.inputOn then acc
+      else match ConcD.stepD F s .mgrMake with
+        | none => acc ++ ["!stuck"]
+        | some s' =>
+          if s'.mgr.m.work.isSome then
+            -- `output <- work`: the request leaves the Manager's hand (mgrSend)
+            go fuel { s' with mgr := { s'.mgr with m := { s'.mgr.m with work := none } } }
+              (acc ++ [s!"{s'.mgr.wlo}-{s'.mgr.whi}"])
+          else go fuel s' acc
+  let out := go (F.chunks.length + 3) s0 []
+  if out.isEmpty then "-" else String.intercalate " " out
+
+/-- the pieces a Worker sends back for a list of requests -/
+def dWrk (F : File) (reqs : List (Nat × Nat)) : String :=
+  let s0 : ConcD.DSt := ConcD.DSt.init F 1
+  -- one Worker step through `stepD`, with the channels and buffers kept out of the way
+  let fresh (s : ConcD.DSt) : ConcD.DSt :=
+    { s with resc := [], ws := s.ws.map (fun w => { w with w := { w.w with held := 0, canAlloc := 2, recyc := 0 } }) }
+  let rec pieces : Nat → ConcD.DSt → List String → ConcD.DSt × List String
+    | 0, s, acc => (s, acc ++ ["!fuel"])
+    | fuel + 1, s, acc =>
+      match s.ws[0]? with
+      | none => (s, acc ++ ["!noworker"])
+      | some w =>
+        if s.fault then (s, acc ++ ["!fault"])
+        else if w.w.dr.isNone then (s, acc)
+        else match ConcD.stepD F s (.wMake 0) with
+          | none => (s, acc ++ ["!stuck"])
+          | some s1 =>
+            match s1.ws[0]? with
+            | none => (s1, acc ++ ["!noworker"])
+            | some w1 =>
+              if s1.fault then (s1, acc ++ ["!fault"])
+              else match ConcD.stepD F s1 (.wSend 0) with
+                | none => (s1, acc ++ ["!stuck"])
+                | some s2 => pieces fuel (fresh s2) (acc ++ [s!"{w1.olo}-{w1.ohi}:{showBytes w1.odata}"])
+  let rec go : List (Nat × Nat) → ConcD.DSt → List String → List String
+    | [], _, acc => acc
+    | (lo, hi) :: rest, s, acc =>
+      let s := { s with reqc := [{ it := { epoch := 0, owner := none }, lo := lo, hi := hi }] }
+      match ConcD.stepD F s (.wRecv 0) with
+      | none => acc ++ ["!stuck"]
+      | some s1 =>
+        if s1.fault then acc ++ ["!fault"]
+        else
+          let (s2, acc) := pieces (hi - lo + 2) s1 acc
+          go rest s2 acc
+  let out := go reqs (fresh s0) []
+  if out.isEmpty then "-" else String.intercalate " " out
+
+def parseRange (t : String) : Option (Nat × Nat) :=
+  match t.splitOn "-" with
+  | [lo, hi] => do pure ((← lo.toNat?), (← hi.toNat?))
+  | _ => none
+
 def c14Step (st : DState) (l : List String) : DState × String :=
   match l with
   | "case" :: _id :: sz :: chunks =>
@@ -104,6 +249,23 @@ def c14Step (st : DState) (l : List String) : DState × String :=
   | ["open", c] =>
     match (kv "c" c).bind String.toNat? with
     | some conc => ({ st with r := R.init st.file (decide (conc > 1)) }, "ok")
+    | none => (st, "bad-op")
+  | "dsched" :: nw :: sd :: calls =>
+    match (kv "n" nw).bind String.toNat?, (kv "seed" sd).bind String.toNat?, calls.mapM parseCall with
+    | some n, some seed, some ops => (st, dSched st.file n seed ops)
+    | _, _, _ => (st, "bad-op")
+  | ["cseek", pos, lim, size, res, off, wh, limit] =>
+    match pos.toNat?, lim.toNat?, size.toNat?, res.toNat?, off.toInt?, wh.toInt?, limit.toInt? with
+    | some pos, some lim, some size, some res, some off, some wh, some limit =>
+      (st, dCseek pos lim size (res != 0) off wh limit)
+    | _, _, _, _, _, _, _ => (st, "bad-op")
+  | ["mgr", lo, hi] =>
+    match lo.toNat?, hi.toNat? with
+    | some lo, some hi => (st, dMgr st.file lo hi)
+    | _, _ => (st, "bad-op")
+  | "wrk" :: reqs =>
+    match reqs.mapM parseRange with
+    | some rs => (st, dWrk st.file rs)
     | none => (st, "bad-op")
   | "trace" :: nw :: evs =>
     match (kv "n" nw).bind String.toNat? with
